@@ -5,6 +5,7 @@ package c09
 import (
 	"bufio"
 	"bytes"
+	"encoding/binary"
 	"fmt"
 	"io"
 	"os"
@@ -31,6 +32,10 @@ type Case struct {
 	Random   [][]int      // random partitions (sorted cut offsets)
 	OnlyCuts []int        `json:",omitempty"` // replay of one fragmentation only
 	OnlyEOF  bool         `json:",omitempty"`
+	// HeaderExtra > 0: the header chunk declares 6+HeaderExtra bytes and carries that many extra
+	// bytes (legal per the format; whatever the library makes of it, it must not depend on the
+	// fragmentation)
+	HeaderExtra int `json:",omitempty"`
 	// AllTruncations: additionally every truncation of the file is read from memory and in
 	// pieces (single read and byte-wise, each with the last bytes delivered together with EOF)
 	AllTruncations bool `json:",omitempty"`
@@ -49,16 +54,23 @@ type nopLogger struct{}
 
 func (nopLogger) Printf(format string, vals ...interface{}) {}
 
-func readAll(r io.Reader) (o outcome) { return readAllOpt(r, false) }
+func readAll(r io.Reader) (o outcome) { return readAllOpt(r, 0) }
 
-// readAllOpt reads with or without the (behaviour-neutral) Log option.
-func readAllOpt(r io.Reader, withLog bool) (o outcome) {
+// readAllOpt reads through one of the entry points that take an io.Reader: mode 0 = ReadFrom,
+// 1 = ReadFrom with the (behaviour-neutral) Log option, 2 = ReadTracksFrom(...).SMF().
+func readAllOpt(r io.Reader, mode int) (o outcome) {
 	var s *smf.SMF
 	var err error
 	if p := ev.TryTimeout(ev.Watchdog, func() {
-		if withLog {
+		switch mode {
+		case 1:
 			s, err = smf.ReadFrom(r, smf.Log(nopLogger{}))
-		} else {
+		case 2:
+			trd := smf.ReadTracksFrom(r)
+			if err = trd.Error(); err == nil {
+				s = trd.SMF()
+			}
+		default:
 			s, err = smf.ReadFrom(r)
 		}
 	}); p != "" {
@@ -191,6 +203,15 @@ func run(c Case) (res ev.Result) {
 		res.Skip = true
 		return
 	}
+	if c.HeaderExtra > 0 && len(full) >= 14 {
+		ext := make([]byte, c.HeaderExtra)
+		for i := range ext {
+			ext[i] = byte(0x11 * (i + 1))
+		}
+		full = append(append(append([]byte{}, full[:14]...), ext...), full[14:]...)
+		binary.BigEndian.PutUint32(full[4:], uint32(6+c.HeaderExtra))
+		res.Classes = append(res.Classes, "extended-header")
+	}
 	dec, _ := smfref.Decode(full)
 	ranges := dec.Ranges
 	sort.Slice(ranges, func(i, j int) bool { return ranges[i][0] < ranges[j][0] })
@@ -208,9 +229,9 @@ func run(c Case) (res ev.Result) {
 		return
 	}
 	res.Classes = append(res.Classes, "memory:"+want.kind)
-	// every second fragmented read is made with a logger attached (smf.Log); it is compared with
-	// the read from memory made the same way
-	wantLog := readAllOpt(bytes.NewReader(b), true)
+	// the fragmented reads rotate over the entry points ReadFrom, ReadFrom with a logger attached
+	// (smf.Log) and ReadTracksFrom; each is compared with the read from memory made the same way
+	wants := [3]outcome{want, readAllOpt(bytes.NewReader(b), 1), readAllOpt(bytes.NewReader(b), 2)}
 	var n, nt int64
 	defer func() { counters.AddEnum(n, nt, "") }()
 	try := func(what string, cuts []int, eofWithData bool, r io.Reader) string {
@@ -219,12 +240,9 @@ func run(c Case) (res ev.Result) {
 			nt++
 			res.Nontrivial = true
 		}
-		withLog, w := n%2 == 0, want
-		if withLog {
-			w = wantLog
-		}
-		if d := diff(readAllOpt(r, withLog), w); d != "" {
-			return fmt.Sprintf("%s (file of %d bytes, eof-with-data=%v, with smf.Log=%v): %s", what, len(b), eofWithData, withLog, d)
+		mode := int(n % 3)
+		if d := diff(readAllOpt(r, mode), wants[mode]); d != "" {
+			return fmt.Sprintf("%s (file of %d bytes, eof-with-data=%v, entry point %s): %s", what, len(b), eofWithData, [3]string{"ReadFrom", "ReadFrom+Log", "ReadTracksFrom"}[mode], d)
 		}
 		return ""
 	}
@@ -376,6 +394,9 @@ func genCase(t *rapid.T) Case {
 		c.API = &a
 		n = 64
 	}
+	if rapid.IntRange(0, 7).Draw(t, "extendedHeader?") == 0 {
+		c.HeaderExtra = rapid.SampledFrom([]int{1, 2, 3, 4, 8, 26}).Draw(t, "headerExtra")
+	}
 	if rapid.IntRange(0, 2).Draw(t, "truncate?") == 0 {
 		c.TruncAt = rapid.IntRange(0, n).Draw(t, "truncAt")
 	} else {
@@ -391,7 +412,7 @@ func genCase(t *rapid.T) Case {
 }
 
 var files = ev.NewCheck("C09", "files",
-	"rapid: valid files from the byte-level grammar (C02 domain, payloads <= 200) and from the library's writer (C01 domain), whole or truncated at a drawn offset (for half of the whole files additionally EVERY truncation, each read from memory vs. single read with EOF, byte-wise, last byte together with EOF, two halves); payloads <= 200 bytes, in one case of ten up to 70000 bytes (crossing the 4 KiB / 64 KiB buffer thresholds; for files > 1500 bytes the split points are all offsets around field boundaries and size thresholds plus a stride); per file: one-byte reads, a single read, a bufio.Reader, a reader whose Seek method fails, a real os.Pipe, smf.ReadFile on a named pipe, EVERY single split point, 1..5 random partitions, each with and without the final bytes delivered together with io.EOF; readers never return 0 bytes without error; every second read with a logger attached through smf.Log (compared with the read from memory made the same way); oracle = differential against smf.ReadFrom(bytes.Reader): both fail or both succeed, same failure kind (nil / ErrMissing / other), deep-equal value (format, division, events, tempo map); the per-fragmentation counts are in part 'fragmentations'",
+	"rapid: valid files from the byte-level grammar (C02 domain, payloads <= 200) and from the library's writer (C01 domain), whole or truncated at a drawn offset (for half of the whole files additionally EVERY truncation, each read from memory vs. single read with EOF, byte-wise, last byte together with EOF, two halves); payloads <= 200 bytes, in one case of ten up to 70000 bytes (crossing the 4 KiB / 64 KiB buffer thresholds; for files > 1500 bytes the split points are all offsets around field boundaries and size thresholds plus a stride); per file: one-byte reads, a single read, a bufio.Reader, a reader whose Seek method fails, a real os.Pipe, smf.ReadFile on a named pipe, EVERY single split point, 1..5 random partitions, each with and without the final bytes delivered together with io.EOF; readers never return 0 bytes without error; the reads rotate over the entry points ReadFrom, ReadFrom with smf.Log and ReadTracksFrom (each compared with the read from memory made the same way); one file in eight has an extended header chunk (declared length 7..32 with extra bytes); oracle = differential against smf.ReadFrom(bytes.Reader): both fail or both succeed, same failure kind (nil / ErrMissing / other), deep-equal value (format, division, events, tempo map); the per-fragmentation counts are in part 'fragmentations'",
 	genCase, run)
 
 func TestPropFiles(t *testing.T) { files.Rapid(t, 100, 3000) }
